@@ -678,6 +678,50 @@ void StatementExecutor::execute_union_assignment(const std::string &var_name,
     }
 }
 
+// self.member = <expression>: stores the typed value in self's member cell and
+// in the receiver's flattened "recv.member" variable
+static void assign_typed_value_to_self_member(
+    Interpreter &interpreter_, Variable *self_member, const std::string &original_receiver_path,
+    const std::string &member_name, const TypedValue &typed_value) {
+    Variable *original_member =
+        original_receiver_path.empty()
+            ? nullptr
+            : interpreter_.find_variable(original_receiver_path);
+
+    if (typed_value.is_struct()) {
+        // 構造体を返す式（関数呼び出しなど）
+        for (Variable *cell : {self_member, original_member}) {
+            if (!cell) {
+                continue;
+            }
+            bool was_const = cell->is_const;
+            bool was_unsigned = cell->is_unsigned;
+            *cell = *typed_value.struct_data;
+            cell->is_const = was_const;
+            cell->is_unsigned = was_unsigned;
+            cell->is_assigned = true;
+        }
+        interpreter_.sync_direct_access_from_struct_value(
+            "self." + member_name, *self_member);
+        return;
+    }
+
+    AssignmentHandlers::store_typed_value_in_member_cell(*self_member,
+                                                         typed_value);
+    if (original_member) {
+        AssignmentHandlers::store_typed_value_in_member_cell(*original_member,
+                                                             typed_value);
+    }
+
+    {
+        char dbg_buf[512];
+        snprintf(dbg_buf, sizeof(dbg_buf), "SELF_ASSIGN: %s = %s (type=%d)",
+                 member_name.c_str(), typed_value.as_string().c_str(),
+                 static_cast<int>(self_member->type));
+        debug_msg(DebugMsgId::GENERIC_DEBUG, dbg_buf);
+    }
+}
+
 void StatementExecutor::execute_self_member_assignment(
     const std::string &member_name, const ASTNode *value_node) {
     debug_msg(DebugMsgId::SELF_MEMBER_ACCESS_START, member_name.c_str());
@@ -869,139 +913,17 @@ void StatementExecutor::execute_self_member_assignment(
                 debug_msg(DebugMsgId::GENERIC_DEBUG, dbg_buf);
             }
         } else {
-            // 右辺の型情報を取得
-            bool is_nullptr =
-                (value_node->node_type == ASTNodeType::AST_NULLPTR);
-
-            int64_t value = interpreter_.evaluate(value_node);
-            self_member->value = value;
-
-            // nullptr の場合、または元の型が TYPE_POINTER の場合は型を保持
-            if (self_member->type != TYPE_STRING && !is_nullptr &&
-                self_member->type != TYPE_POINTER) {
-                self_member->type = TYPE_INT; // デフォルトはint型
-            }
-
-            // 元の変数のメンバーも同時に更新
-            if (!original_receiver_path.empty()) {
-                {
-                    char dbg_buf[512];
-                    snprintf(
-                        dbg_buf, sizeof(dbg_buf),
-                        "SELF_ASSIGN_DEBUG: Looking for original member: %s",
-                        original_receiver_path.c_str());
-                    debug_msg(DebugMsgId::GENERIC_DEBUG, dbg_buf);
-                }
-                Variable *original_member =
-                    interpreter_.find_variable(original_receiver_path);
-                if (original_member) {
-                    debug_msg(DebugMsgId::GENERIC_DEBUG,
-                              "SELF_ASSIGN_DEBUG: Found original member, ");
-                    original_member->value = value;
-                    if (original_member->type != TYPE_STRING && !is_nullptr &&
-                        original_member->type != TYPE_POINTER) {
-                        original_member->type = TYPE_INT;
-                    }
-                    original_member->is_assigned = true;
-                    {
-                        char dbg_buf[512];
-                        snprintf(dbg_buf, sizeof(dbg_buf),
-                                 "SELF_ASSIGN_SYNC: %s = %lld (from variable)",
-                                 original_receiver_path.c_str(),
-                                 (long long)value);
-                        debug_msg(DebugMsgId::GENERIC_DEBUG, dbg_buf);
-                    }
-                } else {
-                    debug_msg(DebugMsgId::GENERIC_DEBUG,
-                              "SELF_ASSIGN_DEBUG: Could not find original ");
-                }
-            }
-
-            {
-                char dbg_buf[512];
-                snprintf(dbg_buf, sizeof(dbg_buf),
-                         "SELF_ASSIGN: %s = %lld (from variable)",
-                         member_name.c_str(), (long long)value);
-                debug_msg(DebugMsgId::GENERIC_DEBUG, dbg_buf);
-            }
+            // 数値変数（double / float / long / bool などを含む）
+            assign_typed_value_to_self_member(
+                interpreter_, self_member, original_receiver_path, member_name,
+                interpreter_.evaluate_typed(value_node));
         }
         self_member->is_assigned = true;
     } else {
-        // 式の評価
-        int64_t value = interpreter_.evaluate(value_node);
-
-        // 複合代入演算子の処理
-        if (value_node->node_type == ASTNodeType::AST_BINARY_OP) {
-            // += -= *= /= などの複合代入かチェック
-            if (value_node->name == "+=" || value_node->name == "-=" ||
-                value_node->name == "*=" || value_node->name == "/=") {
-                // 複合代入は既に評価済みの値として処理
-                {
-                    char dbg_buf[512];
-                    snprintf(dbg_buf, sizeof(dbg_buf),
-                             "SELF_COMPOUND_ASSIGN: %s %s= %lld",
-                             member_name.c_str(), value_node->name.c_str(),
-                             (long long)value);
-                    debug_msg(DebugMsgId::GENERIC_DEBUG, dbg_buf);
-                }
-            }
-        }
-
-        // nullptr または TYPE_POINTER の場合は型を保持
-        bool is_nullptr = (value_node->node_type == ASTNodeType::AST_NULLPTR);
-
-        self_member->value = value;
-        if (self_member->type != TYPE_STRING && !is_nullptr &&
-            self_member->type != TYPE_POINTER) {
-            self_member->type = TYPE_INT;
-        }
-        self_member->is_assigned = true;
-
-        // 元の変数のメンバーも同時に更新
-        if (!original_receiver_path.empty()) {
-            {
-                char dbg_buf[512];
-                snprintf(dbg_buf, sizeof(dbg_buf),
-                         "SELF_ASSIGN_DEBUG: Looking for original member: %s",
-                         original_receiver_path.c_str());
-                debug_msg(DebugMsgId::GENERIC_DEBUG, dbg_buf);
-            }
-            Variable *original_member =
-                interpreter_.find_variable(original_receiver_path);
-            if (original_member) {
-                debug_msg(DebugMsgId::GENERIC_DEBUG,
-                          "SELF_ASSIGN_DEBUG: Found original member, ");
-                original_member->value = value;
-                if (original_member->type != TYPE_STRING && !is_nullptr &&
-                    original_member->type != TYPE_POINTER) {
-                    original_member->type = TYPE_INT;
-                }
-                original_member->is_assigned = true;
-                {
-                    char dbg_buf[512];
-                    snprintf(dbg_buf, sizeof(dbg_buf),
-                             "SELF_ASSIGN_SYNC: %s = %lld",
-                             original_receiver_path.c_str(), (long long)value);
-                    debug_msg(DebugMsgId::GENERIC_DEBUG, dbg_buf);
-                }
-            } else {
-                {
-                    char dbg_buf[512];
-                    snprintf(
-                        dbg_buf, sizeof(dbg_buf),
-                        "SELF_ASSIGN_DEBUG: Could not find original member: %s",
-                        original_receiver_path.c_str());
-                    debug_msg(DebugMsgId::GENERIC_DEBUG, dbg_buf);
-                }
-            }
-        }
-
-        {
-            char dbg_buf[512];
-            snprintf(dbg_buf, sizeof(dbg_buf), "SELF_ASSIGN: %s = %lld",
-                     member_name.c_str(), (long long)value);
-            debug_msg(DebugMsgId::GENERIC_DEBUG, dbg_buf);
-        }
+        // 式の評価: 型付きで評価し、double / 文字列 / 構造体の値を失わない
+        assign_typed_value_to_self_member(
+            interpreter_, self_member, original_receiver_path, member_name,
+            interpreter_.evaluate_typed(value_node));
     }
 
     // self.member個別変数も同時に更新（sync_struct_members_from_direct_accessで上書きされないように）
@@ -1010,6 +932,9 @@ void StatementExecutor::execute_self_member_assignment(
     if (self_member_var) {
         self_member_var->value = self_member->value;
         self_member_var->str_value = self_member->str_value;
+        self_member_var->float_value = self_member->float_value;
+        self_member_var->double_value = self_member->double_value;
+        self_member_var->quad_value = self_member->quad_value;
         self_member_var->type = self_member->type;
         self_member_var->is_assigned = true;
         {
